@@ -34,3 +34,14 @@ PROPS["C20"] = {
     "outside": "big-endian hosts",
     "assumptions": ["oracle is std's to_le_bytes/to_be_bytes"],
 }
+
+PROPS["C01"] = {
+    "groups": [
+        {"crate": "std", "quick": ["c01::"], "jobs": 16, "mem_gb": 6, "timeout_s": 600},
+    ],
+    "bounds": "parent = every window (offset, length) of a 32-byte 8-aligned buffer (all base alignments mod 8, lengths 0..=32); "
+              "request arguments (offset, count, n, index, mid) unconstrained usize; element types u8,u16,u32,u64,u128,[u8;3],[u16;2],Le32; "
+              "atomic types AtomicU8/16/32/64; one derivation step per query (inductive step for chains of any depth)",
+    "outside": "parents larger than 32 bytes (same code, same full-width operands, smaller allocation)",
+    "assumptions": ["ref_at index assumed < len (documented program-logic panic)"],
+}
